@@ -407,6 +407,10 @@ class Ctx:
                 if fj == "infra":
                     raise Infra(f"worker failed on case {idx}: {case}")
                 fail = None if fj is None else Failure(fj["kind"], fj["what"], fj.get("detail"), fj.get("key"))
+                delta = case.pop("_ctx_delta", None) or {}
+                self.nontrivial.update(delta.get("nontrivial", []))
+                for k_, v_ in delta.get("dist", {}).items():
+                    self.count(k_, v_)
                 handle(case, fail)
                 if nfail >= max_fail:
                     break
@@ -444,12 +448,15 @@ def _par_worker(idx):
     case = _PAR["gen"](ctx.rng(name, idx))
     case["stratum"] = name
     case["case_index"] = idx
+    # whatever the runner records on the context (counts, non-trivial marks) travels back to the parent
+    ctx.nontrivial, ctx.dist = set(), {}
     try:
         f = _PAR["run"](case)
     except Infra as e:
         return idx, str(e), "infra"
     except Exception as e:  # pylint: disable=broad-except
         return idx, f"{type(e).__name__}: {e}\n{traceback.format_exc()[-1500:]}", "infra"
+    case["_ctx_delta"] = {"nontrivial": list(ctx.nontrivial), "dist": ctx.dist}
     return idx, case, (None if f is None else f.to_json())
 
 
@@ -590,10 +597,12 @@ def main(argv):
     if len(argv) >= 1 and argv[0] == "--setup":
         return setup()
     if len(argv) < 2:
-        print("usage: check <id> quick|thorough | check <id> --replay <path> | check --setup")
+        print("usage: check <id> quick|thorough | check <id> --replay <path> | check <id> --audit | check --setup")
         return 2
     prop_id = argv[0]
     seed = int(os.environ.get("VERIF_SEED", "0"))
+    if argv[1] == "--audit":
+        return audit_only(prop_id)
     if argv[1] == "--replay":
         tier = "quick"
     else:
@@ -613,6 +622,25 @@ def main(argv):
     except subprocess.TimeoutExpired as e:
         print(f"INFRA-ERROR property={prop_id}: timeout {e}")
         return 2
+
+
+def audit_only(prop_id):
+    """`./check <id> --audit`: build the proof modules and print the axioms of every listed theorem."""
+    mod = load_prop(prop_id)
+    ctx = Ctx(prop_id, "quick", 0)
+    if hasattr(mod, "translate"):
+        mod.translate(ctx)
+    ok, out = lake_build(list(mod.PROOF_MODULES))
+    if not ok:
+        print(out[-3000:])
+        print("proof modules do not build")
+        return 1
+    hits = forbidden_tokens()
+    res, _ = audit(prop_id, list(mod.PROOF_MODULES), list(mod.THEOREMS))
+    for t, (good, ax) in res.items():
+        print(("ok  " if good else "BAD ") + t + "  axioms=" + str(ax))
+    print(f"{sum(1 for g, _ in res.values() if g)}/{len(res)} theorems discharged; forbidden tokens: {hits or 'none'}")
+    return 0 if all(g for g, _ in res.values()) and not hits else 1
 
 
 def setup():
@@ -661,8 +689,8 @@ def run_check(ctx, mod, argv):
     else:
         audit_res, audit_out = {t: (False, "module did not build") for t in theorems}, out_proofs
     bad = [t for t, (ok, _) in audit_res.items() if not ok]
-    checker_cmd = (f"cd lean && lake build {' '.join(modules)} && lake env lean <generated Audit file with "
-                   f"#print axioms for {len(theorems)} theorems>")
+    checker_cmd = (f"./check {prop_id} --audit   # = cd lean && lake build {' '.join(modules)} && lake env lean on a "
+                   f"generated file with `#print axioms` for the {len(theorems)} listed theorems")
     if ctx.tier == "thorough" and ok_proofs and os.environ.get("VERIF_NO_LEANCHECKER") != "1":
         r = _run(["lake", "env", "leanchecker"] + modules, cwd=LEAN, timeout=3000)
         notes.append(f"leanchecker {' '.join(modules)}: exit {r.returncode}")
@@ -674,10 +702,12 @@ def run_check(ctx, mod, argv):
     # 3. correspondence + oracle
     if len(argv) >= 3 and argv[1] == "--replay":
         body = json.load(open(argv[2] if os.path.isabs(argv[2]) else os.path.join(VERIF, argv[2])))
-        f = mod.replay(ctx, body["case"]) if body.get("case") is not None else None
+        case = body.get("case") if "case" in body or "kind" in body and body.get("kind") in (
+            "history", "correspondence", "obligation") else body   # replay files wrap the case, corpus files are the case
+        f = mod.replay(ctx, case) if case is not None else None
         ctx.evaluations += 1
         if f is not None:
-            ctx.failures.append((f, body["case"]))
+            ctx.failures.append((f, case))
         elif body.get("kind") == "obligation":
             print("replay: obligation replays need a full run")
     else:
